@@ -100,7 +100,9 @@ def r1_accept(ctx, configs):
             elif meth == 'verifyFinal':
                 sigp = [p['var']['name'] for p in f['params'][:1] if p.get('var')]
             tainted = taint(f, sigp) if sigp else set()
-            o = outcomes(f, prog, {}, record=prims, rounds=1, cap=512)
+            # file-local free functions called with the signature: a check that was extracted into a helper counts when the helper itself accepts only on a success edge
+            local_helpers = {c['callee']: c for c in calls(f['body']) if c.get('callee') and '::' not in c['callee'] and helper_accepts(prog, f, c, tainted)}
+            o = outcomes(f, prog, {}, record=prims | set(local_helpers), rounds=1, cap=512)
             r.paths += len(o.outcomes)
             bad = None
             ntrue = 0
@@ -115,6 +117,10 @@ def r1_accept(ctx, configs):
                 for i, e in enumerate(evs):
                     if e[0] == 'call' and e[1] == 'EVP_CIPHER_CTX_ctrl' and any('GCM_SET_TAG' in a or 'AEAD_SET_TAG' in a or a in ('17', '0x11') for a in e[2]):
                         settag = i
+                    if e[0] == 'call' and e[1] in local_helpers:
+                        if fact_of(oc, e[1], e[3], i) is True:
+                            ok = True
+                        continue
                     if e[0] != 'call' or e[1] not in (OSSL_PRIMS | BOTAN_PRIMS | FAMILY):
                         continue
                     t = fact_of(oc, e[1], e[3], i)
@@ -143,7 +149,8 @@ def r1_accept(ctx, configs):
                     v = oc['ret']
                     asg = [n['b'] for n in walk(f['body']) if n.get('k') == 'Assign' and n['a'].get('k') == 'Var' and n['a']['name'] == v]
                     asg += [d['init'] for n in walk(f['body']) if n.get('k') == 'Decl' for d in n['decls'] if d['var']['name'] == v and d.get('init') is not None]
-                    if asg and all((x.get('k') == 'Call' and short(x.get('callee')) in (VALUE_PRIMS | OSSL_PRIMS) and mentions_any(canon(x), tainted)) or canon(x) in ('false', '0') for x in asg):
+                    if asg and all((x.get('k') == 'Call' and short(x.get('callee')) in (VALUE_PRIMS | OSSL_PRIMS) and mentions_any(canon(x), tainted)) or canon(x) in ('false', '0')
+                                   or helper_accepts(prog, f, x, tainted) for x in asg):
                         ok = True
                 if meth == 'decryptFinal' and ok:
                     # GCM: the tag must have been installed before the final check (OpenSSL); Botan checks inside end_msg
@@ -161,6 +168,45 @@ def r1_accept(ctx, configs):
                     'the GCM tag' if meth == 'decryptFinal' else 'the signature', bad['ret']), file=f['file'], line=bad['line'], path=bad['path'])
             else:
                 r.ok(f['qname'], site, '%d accepting paths of %d, each after a successful comparison' % (ntrue, len(o.outcomes)), file=f['file'], line=f['line'])
+
+
+def helper_accepts(prog, f, x, tainted, _memo={}):
+    """x is a call of a file-local free function with the (tainted) signature among its arguments, and that function reports success only on the success edge of a comparison
+    primitive over the corresponding parameter (the check was extracted into a helper)."""
+    if x.get('k') != 'Call' or not x.get('callee') or '::' in x['callee']:
+        return False
+    hs = [h for h in prog.fns(x['callee']) if not h.get('class') and os.path.basename(h['file']) == os.path.basename(f['file']) and h.get('body') is not None]
+    if not hs:
+        return False
+    h = hs[0]
+    pn = [pp['var']['name'] if pp.get('var') else None for pp in h['params']]
+    seeds = [pn[i] for i, a in enumerate(x.get('args', [])) if i < len(pn) and pn[i] and mentions_any(canon(a), tainted)]
+    if not seeds:
+        return False
+    key = (h['qname'], h['file'], tuple(seeds), id(prog))
+    if key in _memo:
+        return _memo[key]
+    ht = taint(h, seeds)
+    o = outcomes(h, prog, {}, record=OSSL_PRIMS | BOTAN_PRIMS | VALUE_PRIMS, rounds=1, cap=256)
+    good = bool(o.outcomes)
+    for oc in o.outcomes:
+        if oc['retv'] in (0, '0', 'false') or oc['ret'] in ('false', '0'):
+            continue
+        ok = False
+        for i, e in enumerate(oc['events']):
+            if e[0] != 'call' or e[1] not in (OSSL_PRIMS | BOTAN_PRIMS):
+                continue
+            t = fact_of(oc, e[1], e[3], i)
+            succ = (t is True and e[1] not in STRICT_ONE) or (isinstance(t, tuple) and t[1] in ('1', 'true') and t[2] is True)
+            if succ and any(mentions_any(a, ht) for a in e[2]):
+                ok = True
+        m = re.match(r'!?((?:operator)?[\w=!]+?)(@\d+)?\((.*)\)$', oc['ret'] or '')
+        if not ok and m and m.group(1) in VALUE_PRIMS and mentions_any(m.group(3), ht):
+            ok = True
+        if not ok:
+            good = False
+    _memo[key] = good
+    return good
 
 
 def prog_base_call(f, line):
